@@ -193,6 +193,8 @@ var (
 	// valid UTF-8 symbols: the enumerated alphabet, more ASCII, separators, quotes,
 	// 2-, 3- and 4-byte runes, cased and uncased, NUL and newline
 	wideSyms = []string{"a", "B", "1", "ö", "-", "'", "a", "'", "-", "z", "Z", "9", " ", "_", "&", "*", "\"", ".",
+		// characters that mean something to formatting, pattern and escaping machinery an implementation might route text through
+		"%", "%s", "%%", "\\", "$", "$1", "^", "+", "?", "(", "[", "{", "|", "\t",
 		"é", "Ö", "ß", "я", "Σ", "€", "ⓐ", "世", "𐐨", "😀", "\x00", "\n"}
 	// byte fragments that make the string invalid UTF-8 (only for the byte-level helpers)
 	rawSyms = []string{"\xc3", "\xb6", "\xff", "\x80", "\xe2\x82", "\xf0\x90"}
